@@ -372,7 +372,9 @@ package jsonrpc
 //@   ghost lastMsg : U = nil
 //@   at call xerrors.New: set lastMsg = $0
 //@   at call xerrors.Errorf: set lastMsg = $0
-//@   at call dyn:rpcError: assert codes-match-causes: (lastMsg == "Invalid request" ==> $2 == -32600) && (lastMsg == "Parse error" ==> $2 == -32700) && ($2 == -32600 ==> reqSize == 0 || (defined(reqs) && len(reqs) == 0)) [C09]
+//@   at call dyn:rpcError: assert codes-match-causes: (lastMsg == "Invalid request" ==> $2 == -32600) && (lastMsg == "Parse error" ==> $2 == -32700) && ($2 == -32600 ==> trimmedLen == 0 || (defined(reqs) && len(reqs) == 0)) [C09]
+//@   ghost trimmedLen : Int = -1
+//@   at ret bytes.TrimSpace: set trimmedLen = len($result0)
 //@   at call handle: assert id-normalised-before-dispatch: idok($2.ID) [C09,C02]
 //@   at call handle: assert handler-gets-the-request-context: $1 == ctx [C06]
 //@   at call handle: assert batch-elements-buffered: (ost == 0) == isfn($3, "(*handler).handleReader$1") [C09]
@@ -685,7 +687,8 @@ package jsonrpc
 
 //@ func (*wsConn).handleChanOut
 //@   at recv c.exiting: assert exit-alternative-present: true [C15,C16]
-//@   at send c.registerCh: assert registers-under-fresh-channel-id: $val.reqID == req && $val.ch == ch && $val.chID == id [C07]
+//@   at ret sync/atomic.AddUint64: let freshID = $result0
+//@   at send c.registerCh: assert registers-under-fresh-channel-id: $val.reqID == req && $val.ch == ch && $val.chID == freshID [C07]
 //@   ensures fresh-channel-id: calls(AddUint64) == 1 [C07]
 
 //@ func (*RPCServer).handleWS
